@@ -28,8 +28,22 @@ Conventions (the serialiser `harness/src/proc_sx.rs` establishes them, `Program.
   type; everything else (literal, operator, parenthesised variable, function call) is by value and is
   converted to the parameter type.  `Expr.isRef` is that rule.
 
-Excluded in this phase (the types leave room): arrays / records / fixed-length strings (a by-reference
-actual is a root path only), STATIC procedures, SHARED / CONST, GOSUB / GOTO / labels, ON ERROR,
+Scopes of variables (extension: SHARED / STATIC / CONST):
+
+* a variable reference is a `Var`: `⟨false, i⟩` = slot `i` of the scope it occurs in (main module: a variable
+  of the main module that is not `DIM SHARED`; procedure: a parameter, the result variable or a local),
+  `⟨true, i⟩` = slot `i` of the table of `DIM SHARED` variables (`SProgram.gslots`), whatever scope it occurs
+  in — `linter_names.get_resolved_variable_info(scope, name).shared`, the flag the generator copies into
+  `RootPath { shared }`;
+* `ProcDecl.static`: `SUB … STATIC` / `FUNCTION … STATIC` (`is_static`): all variables of the procedure
+  (parameters, result variable, locals) live in ONE persistent block per procedure;
+* inside a STATIC procedure every DIM (the linter also inserts one before the first use of every undeclared
+  variable) is guarded by `IsVariableDefined`: `SStmt.sdim`;
+* a use of a global `CONST` is already a literal in the linted tree (`expression_reducer`), the `CONST`
+  statement itself generates nothing: the serialiser drops it.
+
+Excluded (the types leave room): arrays / records / fixed-length strings (a by-reference actual is a
+root path only), GOSUB / GOTO / labels, ON ERROR,
 DEF FN.  `proc_sx.rs` answers `None` for a program that uses any of them.
 
 Two levels as in C01: `SStmt` is the faithful syntax the generator sees (ELSEIF chains, optional ELSE,
@@ -40,10 +54,26 @@ namespace RbModel.Proc
 open RbModel RbModel.Num
 open RbModel.Ast (Pos ty? op? val? pos?)
 
+/-- a scalar variable reference: `shared = true` — slot of the table of DIM SHARED variables; `false` — slot of
+the scope the reference occurs in -/
+structure Var where
+  shared : Bool
+  slot : Nat
+  deriving DecidableEq, Inhabited, Repr
+
+/-- the slot tables a reference is resolved against: the scope's own table and the DIM SHARED table -/
+structure SlotTabs where
+  loc : List Ty
+  glob : List Ty
+
+/-- the type of a variable reference -/
+def SlotTabs.get? (tabs : SlotTabs) (x : Var) : Option Ty :=
+  if x.shared then tabs.glob[x.slot]? else tabs.loc[x.slot]?
+
 mutual
 inductive Expr where
   | lit (v : Val) (p : Pos)
-  | var (x : Nat) (t : Ty) (p : Pos)
+  | var (x : Var) (t : Ty) (p : Pos)
   | un (op : UnOp) (e : Expr) (p : Pos)
   /-- `t` is the static type the linter resolved for the node (`expression_type()`) -/
   | bin (op : Op) (l r : Expr) (t : Ty) (p : Pos)
@@ -99,12 +129,12 @@ mutual
 inductive Stmt where
   | skip
   | seq (a b : Stmt)
-  | assign (x : Nat) (t : Ty) (e : Expr) (p : Pos)
+  | assign (x : Var) (t : Ty) (e : Expr) (p : Pos)
   | print (items : List PrintItem) (p : Pos)
-  | read (x : Nat) (t : Ty) (p : Pos)
+  | read (x : Var) (t : Ty) (p : Pos)
   | ifs (c : Expr) (thn els : Stmt) (p : Pos)
   | select (e : Expr) (cases : Cases) (p : Pos)
-  | forLoop (x : Nat) (t : Ty) (lo hi : Expr) (step : Option Expr) (body : Stmt) (p : Pos)
+  | forLoop (x : Var) (t : Ty) (lo hi : Expr) (step : Option Expr) (body : Stmt) (p : Pos)
   | while (c : Expr) (body : Stmt) (p : Pos)
   | doLoop (c : Expr) (top until_ : Bool) (body : Stmt) (p : Pos)
   | end_ (p : Pos)
@@ -125,14 +155,17 @@ inductive SStmt where
   | skip
   | seq (a b : SStmt)
   | comment
-  | dim (x : Nat) (t : Ty) (p : Pos)
-  | assign (x : Nat) (t : Ty) (e : Expr) (p : Pos)
+  | dim (x : Var) (t : Ty) (p : Pos)
+  /-- DIM of the local `x` inside a STATIC procedure (also the implicit DIM the linter inserts before the first use
+  of an undeclared variable): allocates only if the variable does not exist yet (`IsVariableDefined`) -/
+  | sdim (x : Nat) (t : Ty) (p : Pos)
+  | assign (x : Var) (t : Ty) (e : Expr) (p : Pos)
   | print (items : List PrintItem) (p : Pos)
   | data (items : List (Val × Pos)) (p : Pos)
-  | read (vars : List (Nat × Ty × Pos)) (p : Pos)
+  | read (vars : List (Var × Ty × Pos)) (p : Pos)
   | ifBlock (c : Expr) (thn : SStmt) (elifs : ElseIfs) (hasElse : Bool) (els : SStmt) (p : Pos)
   | select (e : Expr) (cases : SCases) (hasElse : Bool) (els : SStmt) (p : Pos)
-  | forLoop (x : Nat) (t : Ty) (lo hi : Expr) (step : Option Expr) (body : SStmt) (p : Pos)
+  | forLoop (x : Var) (t : Ty) (lo hi : Expr) (step : Option Expr) (body : SStmt) (p : Pos)
   | while (c : Expr) (body : SStmt) (p : Pos)
   | doLoop (c : Expr) (top until_ : Bool) (body : SStmt) (p : Pos)
   | end_ (p : Pos)
@@ -148,7 +181,7 @@ end
 
 instance : Inhabited SStmt := ⟨.skip⟩
 
-/-- `FunctionImplementation` / `SubImplementation` (scalars only, not STATIC) -/
+/-- `FunctionImplementation` / `SubImplementation` (scalars only) -/
 structure ProcDecl (body : Type) where
   /-- `some t`: a FUNCTION with result type `t`; `none`: a SUB -/
   result : Option Ty
@@ -161,18 +194,23 @@ structure ProcDecl (body : Type) where
   body : body
   /-- position of the implementation (label, default-result instruction and final `PopRet` carry it) -/
   pos : Pos
+  /-- `is_static`: `SUB name (…) STATIC` -/
+  static : Bool := false
 
 /-- slot of the result variable of a FUNCTION: right after the parameters -/
 def ProcDecl.resultSlot {β : Type} (d : ProcDecl β) : Nat := d.params.length
 
 structure SProgram where
   slots : List Ty
+  /-- types of the DIM SHARED variables -/
+  gslots : List Ty
   body : SStmt
   procs : List (ProcDecl SStmt)
 
 /-- what the reference semantics runs -/
 structure Program where
   slots : List Ty
+  gslots : List Ty
   data : List Val
   body : Stmt
   procs : List (ProcDecl Stmt)
@@ -182,7 +220,7 @@ def zeroOf : Ty → Val
 
 /-! ### desugaring -/
 
-def readSeq (p : Pos) : List (Nat × Ty × Pos) → Stmt
+def readSeq (p : Pos) : List (Var × Ty × Pos) → Stmt
   | [] => .skip
   | (x, t, _) :: rest => .seq (.read x t p) (readSeq p rest)
 
@@ -192,6 +230,8 @@ def desugar : SStmt → Stmt
   | .seq a b => .seq (desugar a) (desugar b)
   | .comment => .skip
   | .dim x t p => .assign x t (.lit (zeroOf t) p) p
+  -- the variable keeps its value: the first time it is zero anyway, later it persists
+  | .sdim _ _ _ => .skip
   | .assign x t e p => .assign x t e p
   | .print items p => .print items p
   | .data _ _ => .skip
@@ -220,7 +260,7 @@ def dataOf : SStmt → List Val
   | _ => []
 
 def SProgram.toAst (sp : SProgram) : Program :=
-  ⟨sp.slots, dataOf sp.body, desugar sp.body,
+  ⟨sp.slots, sp.gslots, dataOf sp.body, desugar sp.body,
    sp.procs.map fun d => { d with body := desugar d.body }⟩
 
 /-! ### well-formedness of the call annotations (decidable; the driver checks it on every program) -/
@@ -269,6 +309,7 @@ def SStmt.wf (sg : Sigs) (inProc : Bool) : SStmt → Bool
   | .seq a b => a.wf sg inProc && b.wf sg inProc
   | .comment => true
   | .dim _ _ _ => true
+  | .sdim _ _ _ => inProc
   | .assign _ _ e _ => e.wf sg
   | .print items _ => items.all (PrintItem.wf sg)
   | .data _ _ => !inProc
@@ -304,10 +345,15 @@ def SProgram.wf (sp : SProgram) : Bool :=
 
 /-! ### reader of the serialised linted program (`harness/src/proc_sx.rs`) -/
 
+/-- `<slot>` (own scope) or `(g <slot>)` (DIM SHARED table) -/
+def var? : Sexp → Option Var
+  | .list [.atom "g", x] => do pure ⟨true, ← x.nat?⟩
+  | x => do pure ⟨false, ← x.nat?⟩
+
 mutual
 partial def expr? : Sexp → Option Expr
   | .list [.atom "lit", v, r, c] => do pure (.lit (← val? v) (← pos? r c))
-  | .list [.atom "var", x, t, r, c] => do pure (.var (← x.nat?) (← ty? t) (← pos? r c))
+  | .list [.atom "var", x, t, r, c] => do pure (.var (← var? x) (← ty? t) (← pos? r c))
   | .list [.atom "neg", e, r, c] => do pure (.un .neg (← expr? e) (← pos? r c))
   | .list [.atom "not", e, r, c] => do pure (.un .not (← expr? e) (← pos? r c))
   | .list [.atom "bin", o, l, rr, t, r, c] => do
@@ -339,9 +385,10 @@ def caseExpr? : Sexp → Option CaseExpr
 mutual
 partial def sstmt? : Sexp → Option SStmt
   | .atom "comment" => some .comment
-  | .list [.atom "dim", x, t, r, c] => do pure (.dim (← x.nat?) (← ty? t) (← pos? r c))
+  | .list [.atom "dim", x, t, r, c] => do pure (.dim (← var? x) (← ty? t) (← pos? r c))
+  | .list [.atom "sdim", x, t, r, c] => do pure (.sdim (← x.nat?) (← ty? t) (← pos? r c))
   | .list [.atom "assign", x, t, e, r, c] => do
-      pure (.assign (← x.nat?) (← ty? t) (← expr? e) (← pos? r c))
+      pure (.assign (← var? x) (← ty? t) (← expr? e) (← pos? r c))
   | .list [.atom "print", .list items, r, c] => do
       pure (.print (← items.mapM item?) (← pos? r c))
   | .list [.atom "data", .list items, r, c] => do
@@ -351,7 +398,7 @@ partial def sstmt? : Sexp → Option SStmt
       pure (.data its (← pos? r c))
   | .list [.atom "read", .list vars, r, c] => do
       let vs ← vars.mapM fun v => match v with
-        | .list [x, t, vr, vc] => do pure ((← x.nat?), (← ty? t), (← pos? vr vc))
+        | .list [x, t, vr, vc] => do pure ((← var? x), (← ty? t), (← pos? vr vc))
         | _ => none
       pure (.read vs (← pos? r c))
   | .list [.atom "if", cnd, thn, .list elifs, els, r, c] => do
@@ -364,7 +411,7 @@ partial def sstmt? : Sexp → Option SStmt
       let step ← match st with
         | .atom "none" => pure none
         | s => do pure (some (← expr? s))
-      pure (.forLoop (← x.nat?) (← ty? t) (← expr? lo) (← expr? hi) step (← sblock? body) (← pos? r c))
+      pure (.forLoop (← var? x) (← ty? t) (← expr? lo) (← expr? hi) step (← sblock? body) (← pos? r c))
   | .list [.atom "while", cnd, body, r, c] => do
       pure (.while (← expr? cnd) (← sblock? body) (← pos? r c))
   | .list [.atom "do", cnd, top, unt, body, r, c] => do
@@ -396,21 +443,21 @@ def param? : Sexp → Option (String × Ty)
   | .list [n, t] => do pure (← Instr.str? n, ← ty? t)
   | _ => none
 
-/-- `(proc <fn ty | sub> <label name> ((<pname> <ty>)…) (<slot ty>…) (<stmt>…) <row> <col>)` -/
+/-- `(proc <fn ty | sub> <static: t | f> <label name> ((<pname> <ty>)…) (<slot ty>…) (<stmt>…) <row> <col>)` -/
 def proc? : Sexp → Option (ProcDecl SStmt)
-  | .list [.atom "proc", kind, name, .list params, .list slots, body, r, c] => do
+  | .list [.atom "proc", kind, st, name, .list params, .list slots, body, r, c] => do
       let result ← match kind with
         | .atom "sub" => pure none
         | .list [.atom "fn", t] => do pure (some (← ty? t))
         | _ => none
       pure { result, name := ← Instr.str? name, params := ← params.mapM param?, slots := ← slots.mapM ty?,
-             body := ← sblock? body, pos := ← pos? r c }
+             body := ← sblock? body, pos := ← pos? r c, static := ← st.bool? }
   | _ => none
 
-/-- `(pprogram (<ty>…) (<stmt>…) (<proc>…))` -/
+/-- `(pprogram (<main ty>…) (<shared ty>…) (<stmt>…) (<proc>…))` -/
 def sprogram? : Sexp → Option SProgram
-  | .list [.atom "pprogram", .list slots, body, .list procs] => do
-      pure ⟨← slots.mapM ty?, ← sblock? body, ← procs.mapM proc?⟩
+  | .list [.atom "pprogram", .list slots, .list gslots, body, .list procs] => do
+      pure ⟨← slots.mapM ty?, ← gslots.mapM ty?, ← sblock? body, ← procs.mapM proc?⟩
   | _ => none
 
 end RbModel.Proc
